@@ -105,12 +105,16 @@ func monitorUCI(sc *UCIScenario, out *UCIOutcome) (vs []Violation, windows []*go
 	stubLineIdx := map[*goWindow]int{}
 	giveup := false
 	stopIgnored := false
+	quitSeen := false
 	for _, e := range out.Events {
 		switch e.Kind {
 		case "IN":
 			tok := strings.Fields(e.Data)
-			if len(tok) == 0 {
-				continue
+			if len(tok) == 0 || quitSeen {
+				continue // nothing after quit asks for an answer
+			}
+			if tok[0] == "quit" {
+				quitSeen = true
 			}
 			switch tok[0] {
 			case "position":
